@@ -269,8 +269,8 @@ def fileQuery (f : ElfBytes) (q : String) : String :=
 
 def parseFault (s : String) : Fault :=
   if s == "i" then .interrupted
-  else if s == "f" then .fail
   else if s == "e" then .eof
+  else if s.startsWith "f" then .fail      -- `f`, `f1`, …: the harness varies the ErrorKind; every kind is a failure
   else if s.startsWith "s" then .short (nat! (s.drop 1).toString)
   else .none
 
